@@ -109,7 +109,7 @@ FnTy(op, ts) ==
       [] op = "round" -> IF n = 2 /\ ts[1] \in {"int", "float"} /\ ts[2] = "int" THEN ts[1] ELSE "ERR"
       [] op \in TransOps -> IF n = 1 /\ j \in {"int", "float", "null"} THEN "float" ELSE "ERR"
       [] op \in {"dt_year", "dt_month", "dt_day"} -> IF n = 1 /\ j \in {"date", "datetime"} THEN "int" ELSE "ERR"
-      [] op \in {"dt_hour", "dt_minute", "dt_second"} -> IF n = 1 /\ j = "datetime" THEN "int" ELSE "ERR"
+      [] op \in {"dt_hour", "dt_minute", "dt_second", "dt_millisecond"} -> IF n = 1 /\ j = "datetime" THEN "int" ELSE "ERR"
       [] OTHER -> "ERR"
 
 AggTy(op, t) ==
@@ -192,7 +192,10 @@ El(e, cx) ==
             IN IF fe # <<>> THEN fe[1]
                ELSE IF \E i \in DOMAIN cs : cs[i].c.ty \notin {"bool", "null"} THEN ErrE("DataTypeError")
                ELSE LET t == JoinAll([i \in DOMAIN cs |-> cs[i].v.ty] \o [i \in DOMAIN dd |-> dd[i].ty]) IN
+                    \* "incompatible function types found in case statement": the non-constant VALUES are of one kind, or one is a window function
+                    LET vfk == {cs[i].v.fk : i \in {j \in DOMAIN cs : ~IsConstExpr(e.cs[j].v)}} \cup {dd[i].fk : i \in {j \in DOMAIN dd : ~IsConstExpr(e.d[j])}} IN
                     IF t = "ERR" THEN ErrE("DataTypeError")
+                    ELSE IF "w" \notin vfk /\ Cardinality(vfk) > 1 THEN ErrE("FunctionTypeError")
                     ELSE [k |-> "case", cs |-> cs, d |-> dd, ty |-> t, fk |-> JoinFk(FkSet(all))]
       [] e.k = "cast" ->
             LET x == El(e.e, cx) IN
@@ -344,11 +347,12 @@ ApplyFn(e, vs) ==          \* e: elaborated fn node, vs: argument values (alread
       [] op = "dt_hour" -> Strict1(vs[1], vs[1].H)
       [] op = "dt_minute" -> Strict1(vs[1], vs[1].M)
       [] op = "dt_second" -> Strict1(vs[1], vs[1].S)
+      \* the millisecond component; below a millisecond SQLite rounds (documented as non-standard): undetermined there
+      [] op = "dt_millisecond" -> IF IsU(vs[1]) \/ IsN(vs[1]) THEN Strict1(vs[1], 0) ELSE IF vs[1].us % 1000 = 0 THEN vs[1].us \div 1000 ELSE UNDEF
       [] op = "hall" -> Fold3(TRUE, vs, TRUE)
       [] op = "hany" -> Fold3(FALSE, vs, FALSE)
-      [] op = "clip" ->      \* null stays null; otherwise max(min(x, upper), lower)
+      [] op = "clip" ->      \* null stays null; otherwise pdt.max(pdt.min(x, upper), lower): a null bound is no bound, lower wins over upper
             IF SeqAnyU(pv) THEN UNDEF ELSE IF IsN(pv[1]) THEN NULL
-            ELSE IF IsN(pv[2]) \/ IsN(pv[3]) THEN UNDEF
             ELSE ExtV(at, <<ExtV(at, <<pv[1], pv[3]>>, FALSE), pv[2]>>, TRUE)
       [] OTHER -> UNDEF
 
